@@ -12,6 +12,8 @@ import (
 	"net/url"
 	"os"
 	"strings"
+	"sync"
+	"sync/atomic"
 	"testing"
 	"time"
 
@@ -62,6 +64,7 @@ func vSessSX(s *sessionsapi.SessionState) vsx {
 
 func driveC08(t *testing.T, out *vEmitter) {
 	defer vC08ProviderFamilies(t, out)
+	defer vC08ConcurrentConstraints(t, out)
 	// ---- 1. the e-mail validator ----
 	domainSets := [][]string{
 		{"example.com"}, {".example.com"}, {"*.example.com"}, {"*"}, {"Example.COM", ".Sub.Example.org"},
@@ -581,6 +584,73 @@ func vC08ProviderFamilies(t *testing.T, out *vEmitter) {
 		if served == 0 {
 			out.Violation("control/no-session-served", "no session was served under this provider family: the sweep checks nothing", map[string]interface{}{"provider": f.name})
 		}
+	}
+}
+
+// vC08ConcurrentConstraints: the auth-only query constraints of requests IN FLIGHT TOGETHER: each request is judged by
+// its own session's e-mail, groups and address, whatever other sessions are being judged at the same moment.
+func vC08ConcurrentConstraints(t *testing.T, out *vEmitter) {
+	e := vNewEnv(t, vEnvCfg{oidc: true, mod: func(o *options.Options) {
+		o.Providers[0].OIDCConfig.InsecureSkipNonce = true
+	}})
+	type who struct {
+		email  string
+		groups []string
+		cookie string
+	}
+	people := []*who{{email: "mallory@evil.example", groups: []string{"users"}}, {email: "alice@good.example", groups: []string{"admins"}},
+		{email: "bob@other.example", groups: []string{"ops"}}, {email: "carol@good.example", groups: []string{"users"}}}
+	for _, p := range people {
+		b := e.newBrowser("https://app.example.com")
+		s := b.seedSession(p.email, time.Minute, 20)
+		s.Groups = p.groups
+		vReseed(b, s)
+		p.cookie = b.cookieHeader("/")
+	}
+	queries := []struct {
+		q    string
+		want func(p *who) bool
+	}{
+		{"allowed_email_domains=good.example", func(p *who) bool { return strings.HasSuffix(p.email, "@good.example") }},
+		{"allowed_groups=admins,ops", func(p *who) bool { return p.groups[0] == "admins" || p.groups[0] == "ops" }},
+		{"allowed_emails=bob@other.example", func(p *who) bool { return p.email == "bob@other.example" }},
+	}
+	var wrong, total int64
+	var mu sync.Mutex
+	var first map[string]interface{}
+	var wg sync.WaitGroup
+	iters := vPick(400, 4000)
+	for g := 0; g < 16; g++ {
+		wg.Add(1)
+		go func(g int) {
+			defer wg.Done()
+			p := people[g%len(people)]
+			for i := 0; i < iters; i++ {
+				qq := queries[(g/len(people)+i)%len(queries)]
+				req, err := vRawRequest(vBuildRaw("GET", "/oauth2/auth?"+qq.q, "app.example.com", [][2]string{{"Cookie", p.cookie}}, ""))
+				if err != nil {
+					return
+				}
+				rw := httptest.NewRecorder()
+				e.p.ServeHTTP(rw, req)
+				atomic.AddInt64(&total, 1)
+				if (rw.Code == 202) != qq.want(p) {
+					if atomic.AddInt64(&wrong, 1) == 1 {
+						mu.Lock()
+						first = map[string]interface{}{"session_email": p.email, "session_groups": p.groups, "query": qq.q, "status": rw.Code, "concurrent_requests": 16}
+						mu.Unlock()
+					}
+				}
+			}
+		}(g)
+	}
+	wg.Wait()
+	out.Stat("c08_concurrent_auth_requests", int(total))
+	out.Obs("concurrent-constraints", true, vL(vI(total), vI(wrong)))
+	if wrong > 0 {
+		first["wrong_answers"] = wrong
+		first["requests"] = total
+		out.Violation("authz/request-enforcement", "an auth-only request was judged by another request's session while several were in flight", first)
 	}
 }
 
